@@ -18,7 +18,9 @@ ParseVectors ==
   { Parse(CodeNames[i], "name", i) : i \in 1..16 }
   \cup { Parse("code_" \o ToString(n), "num", n) : n \in {0, 17, 18, 100, 65536, 2147483647} }
   \cup { Parse(t, "junk", 0) : t \in {"", "Canceled", "CANCELED", "CODE_5", "code_", "code_x", "code_+ 5", "not a code",
-                                        "code_1.5", "canceled ", " canceled", "code", "code_0x11", "ok", "OK", "code_1e3"} }
+                                        "code_1.5", "canceled ", " canceled", "code", "code_0x11", "ok", "OK", "code_1e3",
+                                        \* bare numbers are not the code_<number> form either
+                                        "0", "1", "5", "16", "17", "429", "-1", "4294967295", "4294967296", "_5", "code5"} }
 \* valid UTF-8 only: the message travels in a protobuf string as well
 Utf8Msgs == { <<>>, <<65>>, <<37>>, <<0>>, <<31, 32, 126, 127>>, <<195, 169>>, <<37, 52, 49>>, <<10, 13>>, <<226, 130, 172, 37, 37>>,
               <<32, 65, 32>>, <<240, 159, 152, 128>> }
